@@ -23,6 +23,7 @@ package writecache
 //          the state dump); anything else at the bound is inconclusive.
 
 import (
+	"runtime"
 	"bytes"
 	"errors"
 	"fmt"
@@ -366,8 +367,9 @@ type vf17Snap struct {
 	objMap    map[oid.Address]uint64
 	files     map[oid.Address]uint64
 	junk      []string
-	flushObjs map[oid.Address]bool
+	flushObjs map[oid.Address]bool // union of the marks read before and after the rest
 	st        vf17StorStat
+	torn      bool // reported size kept changing while the snapshot was taken
 }
 
 // walkFiles lists the object files of the cache tree with an independent directory walk
@@ -402,13 +404,29 @@ func (k *vf17Inst) walkFiles() (map[oid.Address]uint64, []string) {
 	return files, junk
 }
 
+// snap reads the white-box state in a fixed order bracketed by two reads of the in-flight
+// marks and of the reported size: fo1, size1, table, files, size2, fo2.  The in-flight set
+// of the snapshot is the union of both reads; a snapshot whose reported size changed while
+// it was taken is torn and retried.  This makes the SIZE oracle independent of how long a
+// flush worker happens to be descheduled between removing a file and removing its table
+// entry (it holds the address marked in flushObjs for that whole window), i.e. of machine load.
 func (k *vf17Inst) snap() vf17Snap {
-	s := vf17Snap{flushObjs: map[oid.Address]bool{}}
-	s.st = k.st.stat()
-	s.size = k.c.objCounters.Size()
-	s.objMap = k.c.objCounters.Map()
-	k.c.flushObjs.Range(func(key, _ any) bool { s.flushObjs[key.(oid.Address)] = true; return true })
-	s.files, s.junk = k.walkFiles()
+	var s vf17Snap
+	for try := 0; try < 50; try++ {
+		s = vf17Snap{flushObjs: map[oid.Address]bool{}}
+		k.c.flushObjs.Range(func(key, _ any) bool { s.flushObjs[key.(oid.Address)] = true; return true })
+		s.st = k.st.stat()
+		s.size = k.c.objCounters.Size()
+		s.objMap = k.c.objCounters.Map()
+		s.files, s.junk = k.walkFiles()
+		size2 := k.c.objCounters.Size()
+		k.c.flushObjs.Range(func(key, _ any) bool { s.flushObjs[key.(oid.Address)] = true; return true })
+		if size2 == s.size {
+			break
+		}
+		s.torn = true
+		runtime.Gosched()
+	}
 	return s
 }
 
@@ -496,22 +514,41 @@ func (k *vf17Inst) repeatTag() string {
 	return "no-repeated-put"
 }
 
+// settled returns the table and the files restricted to addresses that are not marked as
+// being flushed in this snapshot (an address in flight legitimately passes through
+// file-without-entry / entry-without-file states under the cache's own serialization).
+func (s vf17Snap) settled() (tbl, files map[oid.Address]uint64) {
+	tbl, files = map[oid.Address]uint64{}, map[oid.Address]uint64{}
+	for a, v := range s.objMap {
+		if !s.flushObjs[a] {
+			tbl[a] = v
+		}
+	}
+	for a, v := range s.files {
+		if !s.flushObjs[a] {
+			files[a] = v
+		}
+	}
+	return
+}
+
 // shape names how the per-address table relates to the files actually held.
 func (s vf17Snap) shape() string {
-	if vf17SameMap(s.objMap, s.files) {
-		if s.size == vf17Sum(s.files) {
-			return "consistent"
+	tbl, files := s.settled()
+	if vf17SameMap(tbl, files) {
+		if s.size != vf17Sum(s.objMap) {
+			return "total-drift" // per-address table agrees with the files, only the total is off
 		}
-		return "total-drift" // per-address table agrees with the files, only the total is off
+		return "consistent"
 	}
 	shape := "entry-mismatch"
-	for a := range s.objMap {
-		if _, ok := s.files[a]; !ok {
+	for a := range tbl {
+		if _, ok := files[a]; !ok {
 			shape = "entry-without-file"
 		}
 	}
-	for a := range s.files {
-		if _, ok := s.objMap[a]; !ok {
+	for a := range files {
+		if _, ok := tbl[a]; !ok {
 			shape = "file-without-entry"
 		}
 	}
@@ -531,11 +568,20 @@ func (k *vf17Inst) checkSize(s vf17Snap, phase string) {
 	if s.size == held {
 		return
 	}
+	if s.torn {
+		k.r.Count("size_checks_skipped_torn_snapshot", 1)
+		return
+	}
+	shape := s.shape()
+	if shape == "consistent" {
+		// the only disagreement concerns addresses a flush worker holds right now
+		k.r.Count("size_checks_with_only_in_flight_disagreement", 1)
+		return
+	}
 	dir := "reported>held"
 	if s.size < held {
 		dir = "reported<held"
 	}
-	shape := s.shape()
 	key := fmt.Sprintf("size|%s|%s|%s", dir, shape, k.repeatTag())
 	k.r.Violation(key, fmt.Sprintf("quiescent point (%s) of case %d: cache reports %d bytes used, cache tree holds %d bytes in %d object files (sum of per-address table %d, %d entries)",
 		phase, k.idx, s.size, held, len(s.files), vf17Sum(s.objMap), len(s.objMap)), k.dump(s))
@@ -710,12 +756,24 @@ func (k *vf17Inst) restart(fresh bool) bool {
 // object above the batch threshold wait; the stalled flush then fails.  Afterwards the
 // storage is healthy and nothing is written any more: everything must drain.
 func vf17CaseLeak(r *verifkit.Run, idx int) {
-	rng := r.Rand("leak", idx)
+	// The construction needs all puts to land between two scheduler ticks (the tick is the
+	// code's own 1 s timer); when a tick falls in between, the attempt is abandoned and the
+	// case is rebuilt on a fresh instance (bounded), so the outcome does not depend on load.
+	for attempt := 0; attempt < 6; attempt++ {
+		if !vf17CaseLeakTry(r, idx, attempt, attempt == 5) {
+			return
+		}
+		r.Count("constructed_case_rebuilt_because_a_tick_fell_between_its_puts", 1)
+	}
+}
+
+func vf17CaseLeakTry(r *verifkit.Run, idx, attempt int, last bool) (retry bool) {
+	rng := r.Rand("leak", idx*16+attempt)
 	p := vf17Params{Workers: 1 + idx%2, Thr: 2048, BCount: 8, BSize: 1 << 20, MaxSize: 1 << 20, Kind: "constructed-big-closes-batch-while-flush-fails"}
 	k, err := vf17NewInst(r, idx, p, rng)
 	if err != nil {
 		r.Inconclusive("setup: " + err.Error())
-		return
+		return false
 	}
 	nSmall := 1 + rng.IntN(3)
 	k.desc = map[string]any{"scenario": p.Kind, "case": idx, "params": p, "small_waiting": nSmall}
@@ -727,10 +785,13 @@ func vf17CaseLeak(r *verifkit.Run, idx int) {
 	for i := 0; i < p.Workers; i++ {
 		k.put(vf17MakeObj(rng, cnr, owner, 400+i))
 		if !vf17Await(func() bool { return k.st.stat().parked == i+1 }, 20*vf17Tick) {
-			r.Inconclusive(fmt.Sprintf("case %d: workers did not reach the stalled storage", idx))
 			close(gate)
 			k.finishQuiet()
-			return
+			if !last {
+				return true
+			}
+			r.Inconclusive(fmt.Sprintf("case %d: workers did not reach the stalled storage", idx))
+			return false
 		}
 	}
 	k.logf("occupied %d workers with flushes of one small object each (main storage stalls)", p.Workers)
@@ -745,10 +806,13 @@ func vf17CaseLeak(r *verifkit.Run, idx int) {
 	k.logf("put %d small objects and big %s (size %d > threshold %d)", nSmall, vf17Short(big.addr), len(big.data), p.Thr)
 	// scheduler: smalls form a pending batch, big closes it -> hand-off blocks (all workers busy)
 	if !vf17Await(func() bool { _, ok := k.c.flushObjs.Load(big.addr); return ok }, 20*vf17Tick) {
-		r.Inconclusive(fmt.Sprintf("case %d: scheduler did not reach the big object", idx))
 		close(gate)
 		k.finishQuiet()
-		return
+		if !last {
+			return true
+		}
+		r.Inconclusive(fmt.Sprintf("case %d: scheduler did not reach the big object", idx))
+		return false
 	}
 	time.Sleep(vf17Tick / 10) // let the scheduler park in the hand-off select
 	s, ok := k.stable(3, 30*time.Millisecond, 10*time.Second)
@@ -762,6 +826,7 @@ func vf17CaseLeak(r *verifkit.Run, idx int) {
 	r.Distinct(fmt.Sprintf("leak|w=%d|small=%d", p.Workers, nSmall))
 	k.finish(rng, cnr, owner, p.Kind)
 	r.Eval(1)
+	return false
 }
 
 func (k *vf17Inst) finishQuiet() {
